@@ -128,6 +128,7 @@ func init() {
 			{"record-kind", "every function that decodes a trie node record (from the store, from a proof, from a peer) refuses the child-only kinds - hash node and empty node - before it uses the node: an empty record panics, a hash-node record makes the loaded node point at itself", func(c *Ctx) { ruleRecordKind(c, "pkg/core/statesync", "pkg/core/mpt") }},
 			{"stage-gated-accessor", "every way from a P2P command handler to statesync.Module.BlockHeight - which panics until the MPT stage is complete - passes a branch on the module's stage that controls the onward call (one data-gated site tabled): a peer's message during the header or MPT stage must be ignored, not crash the node", ruleStageGatedAccessor},
 			{"ring-slot-index", "in the block queue, the element found in the ring slot computed for an index is compared with that same index (same base, same constant offset): a clean-up that is off by one never matches, the length leaks and the node stops asking for blocks", ruleRingSlotIndex},
+			{"record-layout-agreement", "every trie mode that state synchronisation computes from KeepOnlyLatestState / RemoveUntraceableBlocks has the reference-counting bit of the state-root module's mode for all four combinations: the synchronised records are read by that module after the jump", ruleRecordLayoutAgreement},
 			{"lock-pairing", "in pkg/network/bqueue and pkg/core/statesync every mutex acquired is released on every exit (defer-aware, boolean-correlated; the hand-unlocked Blocking branch of Queue.Put included)", func(c *Ctx) { lockPairingPkgs(c, []string{"pkg/network/bqueue", "pkg/core/statesync"}, nil, 10) }},
 			{"lockset", "the block queue's ring/len/lastQ and the state-sync module's stage, sync point, heights, tries and node pool are read and written only while the owning mutex is held (write lock for writes), in methods every call site of which holds it, or in the tabled traversal callback", ruleLocksetSync},
 			{"stage-machine", "the state jump that ends a state synchronisation is a well-formed stage machine: markers name the next clause and are persisted with the stage, and everything the jump writes to the store is in or before the batch that removes the marker (a restart at any point resumes or finds the jump complete)", ruleStageMachine},
@@ -339,6 +340,7 @@ func init() {
 			{"store-value-immutable", "Trie methods never modify in place a slice obtained from the store (counter updates work on a copy), so a trie computed over a private layer and dropped leaves stored records untouched", ruleStoreValueImmutable},
 			{"rc-loaded", "a node a Trie method loads from the store while restructuring is either handed on / embedded / returned as a whole or released with removeRef on every path that returns normally (a replaced node is never left counted)", ruleRCLoaded},
 			{"trie-copy-shares", "a value copy of a Trie shares the node objects and the pending-count map with the original: it is not mutated through (PutBatch, Put, Delete, Flush, Collapse) - a block computed on such a copy and dropped would leave the installed trie restructured and re-counted", ruleTrieCopyShares},
+			{"record-layout-agreement", "every trie mode that state synchronisation computes from KeepOnlyLatestState / RemoveUntraceableBlocks has the reference-counting bit of the state-root module's mode for all four combinations: the synchronised records are read by that module after the jump", ruleRecordLayoutAgreement},
 			{"rc-writers", "node records reach the store only through the tabled count-folding writers; the GC pass deletes a record only if it is inactive and not newer than the GC height", ruleRCWriters},
 			{"working-trie", "the state-root module's working trie (the one flushed to the database) is opened on every (re)initialisation, jump and reset with the module's unmasked mode over the module's own store, and a flush stamps nodes with the index of the block whose root record is written", ruleWorkingTrie},
 		},
